@@ -239,13 +239,13 @@ class Prop:
     case_module = "CaseC14"
     case_vo = "theories/Cases/CaseC14.vo"
     run_fn = "run14"
-    shard = 150
+    shard = 250
     rule = ("plain trees: every ordered forest with <= 3 nodes x every labeling over 2 strings x data_id in {default, 0, '', 'k', "
             "hash(data)} that the tree accepts (quick: 3-node forests with {default, 0, ''} only); every forest with <= N nodes (N=5 "
             "quick, 6 thorough) x 6 labeling patterns (distinct strings; clones in different parents; explicit/falsy/default-valued ids; "
             "value-equal objects, tuples, ints, dataclasses; identity-hashed objects; '7' next to 7) x the 5 serialisation mappers (none / "
-            "set data in place / wrap / new dict keeping or dropping data_id) with the inverse deserialisation mapper (quick: 2 of 5 "
-            "mappers for 5-node forests); trees under a calc_data_id hook; typed trees; emptied trees (clear, remove of the last top "
+            "set data in place / wrap / new dict keeping or dropping data_id) with the inverse deserialisation mapper (at N nodes: 2 of "
+            "the 5 mappers); trees under a calc_data_id hook; typed trees; emptied trees (clear, remove of the last top "
             "node); seeded random trees (5..18 nodes quick, 5..30 thorough); 16 hand-written and malformed dict lists; Node.from_dict "
             "into every node of every forest <= 3 (thorough 4) nodes x 3 calc_data_id hooks x 6 item lists.  Every dump goes through "
             "json.dumps/json.loads before from_dict.  A case is one tree (or one dict list); distinct = distinct desc; non-trivial = >= 3 nodes")
@@ -311,7 +311,7 @@ class Prop:
             for shape in H.forests(n):
                 for pi, (univ, labeler) in enumerate(pats):
                     nodes = B.shape_to_nodes(shape, labeler)
-                    kinds = SM_KINDS if (n <= 4 or tier != "quick") else [SM_KINDS[(pi + n) % 5], "none"]
+                    kinds = SM_KINDS if n <= (4 if tier == "quick" else 5) else [SM_KINDS[(pi + n) % 5], "none"]
                     for sm in kinds:
                         d = dict(univ=univ, nodes=nodes, sm=sm)
                         if ok(d):
@@ -699,13 +699,17 @@ class Prop:
 
     def oracle_load(self, obj, rebuilt):
         items = item_dicts(obj)
-        wellformed = all(isinstance(it, dict) for it in obj) and all(
-            "data" in it and isinstance(it["data"], (str, int)) and not isinstance(it["data"], bool)
-            and (it.get("data_id") is None or (isinstance(it["data_id"], (str, int)) and not isinstance(it["data_id"], bool)))
-            for it in items)
-        if not wellformed:
-            if any(isinstance(it, dict) and "data" not in it for it in items) and not is_err(rebuilt):
-                return "from_dict: item without 'data' accepted"
+
+        def wf(l):
+            return isinstance(l, list) and all(
+                isinstance(it, dict) and "data" in it and isinstance(it["data"], (str, int)) and not isinstance(it["data"], bool)
+                and (it.get("data_id") is None or (isinstance(it["data_id"], (str, int)) and not isinstance(it["data_id"], bool)))
+                and (not it.get("children") or wf(it["children"])) for it in l)
+
+        if not wf(obj):
+            if not is_err(rebuilt) and (any(not isinstance(it, dict) for it in obj)
+                                        or any(isinstance(it, dict) and "data" not in it for it in items)):
+                return "from_dict: malformed item accepted"
             return None
 
         def eff(d):
@@ -770,6 +774,17 @@ LOADS = [
     dict(load=[{"data": "a", "extra": 1, "children": [{"data": "a", "data_id": 7, "children": [{"data": "a"}]}]}]),
     dict(load=[{"data": 1}, {"data": True}]),
     dict(load=[{"data": -1}, {"data": -2}]),
+    # items that are not dicts; "children" values that are not lists
+    dict(load=[5]),
+    dict(load=[{"data": "a"}, "a"]),
+    dict(load=[None]),
+    dict(load=[[{"data": "a"}]]),
+    dict(load=[{"data": "a", "children": "ab"}, {"data": "b"}]),
+    dict(load=[{"data": "a", "children": {"k": 1}}]),
+    dict(load=[{"data": "a", "children": 5}]),
+    dict(load=[{"data": "a", "children": True}]),
+    dict(load=[{"data": "a", "children": 0}, {"data": "b", "children": ""}, {"data": "c", "children": False}]),
+    dict(load=[{"data": "a", "children": [{"data": "b"}, 5]}, {"data": "a"}]),
 ]
 
 PROP = Prop()
